@@ -211,7 +211,7 @@ Definition ov_resolve (t : nat) (committed : list N) (vs : list Z) (o : overlay)
 
 (* ------------------------------------------------------------------ key-value layer *)
 Notation table := (gmap N row).
-Definition batch := list (N * option row).
+Notation batch := (list (N * option row)).
 Definition apply1 (m : table) (w : N * option row) : table :=
   match w.2 with Some r => <[w.1 := r]> m | None => delete w.1 m end.
 Definition apply_batch (b : batch) (m : table) : table := fold_left apply1 b m.
